@@ -525,6 +525,52 @@ func drawSnippet(t *rapid.T, name string, e genEnv) []Op {
 				ops = append(ops, Op{K: "login", B: b, A: e.nAcct, Src: "pw", SA: e.nAcct})
 			}
 		}
+	case "logoutfrom":
+		// reach a session state, then log out
+		for i := rapid.IntRange(0, 2).Draw(t, "nset"); i > 0; i-- {
+			ops = append(ops, Op{K: "set", B: b, S: pick(t, "appkey", harness.AppKeys...), S2: pick(t, "appval", "dark", "3", "fr")})
+		}
+		state := pick(t, "state", "loggedin", "half", "mid2fa", "mid2fasetup", "midoauth", "emailverify", "expired", "anon")
+		full := []Op{login}
+		if c.HasSetup("totp") {
+			full = append(full, Op{K: "totpvalidate", B: b, A: a, Src: "totp", SA: a})
+		}
+		if c.HasSetup("sms") {
+			full = append(full, Op{K: "smsvalidate", B: b, A: a, Src: "smssess"})
+		}
+		switch state {
+		case "loggedin":
+			ops = append(ops, full...)
+		case "half":
+			full[0].F = true
+			ops = append(ops, full...)
+			ops = append(ops, Op{K: "newsess", B: b}, Op{K: "visit", B: b, S: "/open"})
+		case "mid2fa":
+			ops = append(ops, login)
+		case "mid2fasetup":
+			ops = append(ops, full...)
+			if c.EmailAuth {
+				k := rapid.IntRange(0, 1).Draw(t, "evkind")
+				ops = append(ops, Op{K: "evstart", B: b, N: k}, Op{K: "evend", B: b, A: a, N: k, Src: "evtok", SA: a})
+			}
+			ops = append(ops, Op{K: "totpsetup", B: b}, Op{K: "smssetup", B: b, S: "+15550009"})
+		case "midoauth":
+			ops = append(ops, Op{K: "o2start", B: b, N: 0, F: true, S2: "/back/here"})
+		case "emailverify":
+			ops = append(ops, full...)
+			ops = append(ops, Op{K: "evstart", B: b, N: rapid.IntRange(0, 1).Draw(t, "evkind")})
+		case "expired":
+			ops = append(ops, full...)
+			ops = append(ops, Op{K: "advance", N: 100000})
+		}
+		lo := Op{K: "logout", B: b}
+		if chance(t, "othermethod", 20) {
+			lo.S = pick(t, "method", "GET", "POST", "DELETE", "PUT")
+		}
+		ops = append(ops, lo)
+		if chance(t, "after", 40) {
+			ops = append(ops, Op{K: "visit", B: b, S: pick(t, "route", visitRoutes...)})
+		}
 	case "idle":
 		if !c.Has("auth") {
 			return nil
